@@ -277,6 +277,10 @@ RULES = {
   {'id': 'rcu_qs_active_attempts', 'file': 'src/urcu.c', 'kind': 'regex', 'pattern': r'^#define RCU_QS_ACTIVE_ATTEMPTS 100\s*$',
    'repl': '#define RCU_QS_ACTIVE_ATTEMPTS 2', 'count': 1},
  ],
+ 'qs_attempts_small_qsbr': [
+  {'id': 'rcu_qs_active_attempts_qsbr', 'file': 'src/urcu-qsbr.c', 'kind': 'regex', 'pattern': r'^#define RCU_QS_ACTIVE_ATTEMPTS 100\s*$',
+   'repl': '#define RCU_QS_ACTIVE_ATTEMPTS 2', 'count': 1},
+ ],
  # tuning constant only: number of spins before sleeping (bounded stand-in; the thorough tier keeps 1000)
  'wait_attempts_small': [
   {'id': 'urcu_wait_attempts', 'file': 'src/urcu-wait.h', 'kind': 'regex', 'pattern': r'^#define URCU_WAIT_ATTEMPTS 1000\s*$',
